@@ -419,6 +419,10 @@ pub fn print_case(run: usize, p: &Problem, dir: &str) -> Value {
         s2.solve();
         let b1_two = s1.get_print_buffer().unwrap();
         let b2_two = String::from_utf8_lossy(&shared.0.lock().unwrap()).to_string();
+        // selecting the buffer again starts a fresh capture: it then holds the log of the next solve only
+        s1.print_to_buffer();
+        s1.solve();
+        let b1_fresh = s1.get_print_buffer().unwrap();
         // file
         let path = format!("{}/print_{}.txt", dir, run);
         let f = std::fs::File::create(&path).unwrap();
@@ -487,7 +491,7 @@ pub fn print_case(run: usize, p: &Problem, dir: &str) -> Value {
         json!({"ev": "PrintCase", "run": run,
             "same_stream": mask_time(&b1) == mask_time(&b2), "same_file": mask_time(&b1) == mask_time(&b3),
             "same_short_stream": mask_time(&b1) == mask_time(&b7),
-            "reread_same": b1 == b1_again,
+            "reread_same": b1 == b1_again, "rebuffer_fresh": mask_time(&b1_fresh) == mask_time(&b1),
             "two_solves_same": mask_time(&b1_two) == mask_time(&b2_two) && b1_two.starts_with(&b1) && b1_two.len() > b1.len(),
             "len_buffer": b1.len(), "len_quiet_buffer": b4.len(), "len_quiet_stream": b5len, "len_after_sink": b6.len(),
             "getbuf_err": [getbuf_stream_err, getbuf_file_err, getbuf_sink_err],
